@@ -383,8 +383,8 @@ def execute(case):
                 st.remove('w.tdms_index')
                 res.probe('cut-with-index-beside')
             elif (c * 2654435761 + case['win_seed']) % 7 == 0:
-                # the same cut file handed over as another kind of object: BytesIO, a buffered and an unbuffered real file
-                bk = ('bytesio', 'realfile', 'rawfile')[(c + case['win_seed']) % 3]
+                # the same cut file handed over as another kind of object: BytesIO, a buffered and an unbuffered real file, an object whose seek() returns nothing
+                bk = ('bytesio', 'realfile', 'rawfile', 'oldproto')[(c + case['win_seed']) % 4]
                 vs += check_cut(w, c, raw_ts, st, res, win_rng, backend=bk)
                 st.close_real()
                 res.probe('cut-via:' + bk)
